@@ -56,11 +56,10 @@ EXPLANATION = (
     "name (`typing.X`, `<alias>.X`) only under its name-collision test "
     "unless the predicate also recognises Attribute nodes; bare member "
     "names and from-import aliases are the forms the Name-only predicate "
-    "sees.  KNOWN GAP (holds today, accepted by R20.8 as the one exemption): "
-    "when the analysed module itself defines a name `Any`/`Never` the "
-    "printer must write `typing.Any`, the filter misses it and merge-pyi "
-    "inserts `-> Any` (confirmed by running printer and merge on such a "
-    "module at design time); the rule notes this in the evidence.  Not "
+    "sees.  (This rule found defect D44: when the analysed module itself "
+    "defines a name `Any`/`Never` the printer writes `typing.Any`, which the "
+    "Name-only filter missed, so merge-pyi inserted `-> Any`; repaired by "
+    "87d75f5, after which the predicate recognises the qualified form.)  Not "
     "decided: the behaviour of libcst's visitor itself (it also adds "
     "imports), user stubs that spell Any through their own aliases, nor "
     "that the filters remove every undesirable annotation.")
@@ -80,8 +79,7 @@ ASSUMPTIONS = [
     "node in place of the original",
     "stubs given to merge-pyi are the ones pytype's printer produces "
     "(PrintVisitor); _Imports.get_alias returns the alias of a from-import, "
-    "i.e. a bare identifier; a module that defines its own `Any`/`Never` is "
-    "outside the agreement R20.8 decides (known gap, see EXPLANATION)",
+    "i.e. a bare identifier",
 ]
 
 MP = "pytype/tools/merge_pyi/merge_pyi.py"
@@ -1250,6 +1248,15 @@ def _recognised_spellings(ctx):
   if out["bare"] is None:
     raise AnalysisError(
         f"{pred.name}: the set of names it recognises was not understood")
+  # idiom: `if isinstance(p, Attribute) and ...: p = p.attr` followed by the
+  # Name test: a qualified spelling is then recognised for the same names
+  for n in ast.walk(pred):
+    if isinstance(n, ast.If) and "Attribute" in tested and \
+        f"isinstance({p}, " in src(n.test) and "Attribute" in src(n.test):
+      for st in n.body:
+        if isinstance(st, ast.Assign) and src(st.targets[0]) == p and \
+            src(st.value) == f"{p}.attr":
+          out["qualified"] = out["bare"] | (out["qualified"] or frozenset())
   return out
 
 
@@ -1361,13 +1368,7 @@ def r20_8(ctx):
     facts = {"forms": sorted(kinds), "guards": [list(x) for x in g],
              "filter_recognises_qualified": qualified_ok}
     construct = "PrintVisitor._FromTyping:spelling:" + "|".join(sorted(kinds))
-    ok = "qualified" not in kinds or collision or qualified_ok
-    if "qualified" in kinds and collision and not qualified_ok:
-      ctx.note(
-          "R20.8 known gap: under a name collision (the module defines its own "
-          f"{sorted(names)}) _FromTyping writes `typing.<member>`, which "
-          f"{_ANY_FILTER}.{rec['pred'].name} does not recognise: merge-pyi then "
-          "inserts a bare Any/Never for such a module")
+    ok = "qualified" not in kinds or qualified_ok
     ctx.check(ok, construct, PR, r.lineno,
               f"_FromTyping can spell a typing member as a qualified name "
               f"(`{src(r.value)}`, under {g}) without a name collision forcing "
@@ -1608,10 +1609,13 @@ VARIANTS = [
        "      return updated_node.with_changes(returns=None)\n    return updated_node",
        "silent"),
     # R20.8
-    {"name": "seeded-C20-m2", "rule": "R20.8", "patch": "seeded/C20-m2/patch.diff",
-     "expect": "fire"},
-    {"name": "printer-always-qualifies-typing-members", "rule": "R20.8", "file": PR,
-     "expect": "fire",
+    # Since fix 87d75f5 (D44) the filter recognises `typing.Any`/`typing.Never`,
+    # so a printer that qualifies typing members no longer breaks the property:
+    # the seeded change C20-m2 is neutralised (its demo passes) and must be silent.
+    {"name": "twin-seeded-C20-m2-neutralised-by-D44", "rule": "R20.8",
+     "patch": "seeded/C20-m2/patch.diff", "expect": "silent"},
+    {"name": "twin-printer-always-qualifies-typing-members", "rule": "R20.8", "file": PR,
+     "expect": "silent",
      "old": "    alias = self._imports.get_alias(full_name) or name\n"
             "    self._imports.add(full_name, alias)\n    return alias\n",
      "new": "    alias = self._imports.get_alias(full_name)\n"
@@ -1647,4 +1651,6 @@ VARIANTS = [
           "      return \"typing.\" + name\n"
           "    alias = alias or name\n"),
          (MP, _ANY_OLD, _ANY_QUALIFIED)]},
+    {"name": "revert-D44-with-qualifying-printer", "rule": "R20.8", "expect": "fire",
+     "edits": [(MP, "    if (\n        isinstance(annotation, expression.Attribute)\n        and isinstance(annotation.value, expression.Name)\n        and annotation.value.value == \"typing\"\n    ):\n      # The stub printer writes `typing.Any` when the module defines its own\n      # `Any`.\n      annotation = annotation.attr\n", "")]},
 ]
